@@ -744,10 +744,12 @@ def run(ctx):
         run_oracles(ctx, sets, pending)
         c05_deco.oracle(ctx)
         attrs(ctx, "oracle")
+        c05_defaults.oracle(ctx)
     finally:
         corr_streams(ctx, sets, pending)
         c05_deco.corr(ctx)
         attrs(ctx, "corr")
+        c05_defaults.corr(ctx)
 
 
 # --------------------------------------------------------------------------------------------- replay
@@ -759,6 +761,13 @@ def replay(ctx, data):
         d0 = data["first_disagreements"][0]
         case = d0.get("case") or {}
         stream = d0.get("stream") or ""
+    if ".sig.default" in stream:                                     # harness/c05_defaults.py's streams
+        from harness import c05_defaults
+        if stream.startswith("corr."):
+            print("signature:", case.get("input"))
+            print("(correspondence: rerun the check; the model side is `c05 dsig`)")
+            return False
+        return c05_defaults.replay(ctx, case)
     if any(t in stream for t in (".attrs", ".sig", ".nsexpr")):      # harness/c05_attrs.py's streams
         from harness import c05_attrs
         return c05_attrs.replay_attrs(ctx, case)
